@@ -28,6 +28,12 @@ Model/Emitter.vos Model/Emitter.vok Model/Emitter.required_vos: Model/Emitter.v 
 Model/EmitterTie.vo Model/EmitterTie.glob Model/EmitterTie.v.beautified Model/EmitterTie.required_vo: Model/EmitterTie.v Lib/ZList.vo Model/Emitter.vo
 Model/EmitterTie.vio: Model/EmitterTie.v Lib/ZList.vio Model/Emitter.vio
 Model/EmitterTie.vos Model/EmitterTie.vok Model/EmitterTie.required_vos: Model/EmitterTie.v Lib/ZList.vos Model/Emitter.vos
-Props/EmitterProps.vo Props/EmitterProps.glob Props/EmitterProps.v.beautified Props/EmitterProps.required_vo: Props/EmitterProps.v Lib/ZList.vo Model/Emitter.vo
-Props/EmitterProps.vio: Props/EmitterProps.v Lib/ZList.vio Model/Emitter.vio
-Props/EmitterProps.vos Props/EmitterProps.vok Props/EmitterProps.required_vos: Props/EmitterProps.v Lib/ZList.vos Model/Emitter.vos
+Model/EmitterExt.vo Model/EmitterExt.glob Model/EmitterExt.v.beautified Model/EmitterExt.required_vo: Model/EmitterExt.v Lib/ZList.vo Model/Emitter.vo Model/EmitterTie.vo
+Model/EmitterExt.vio: Model/EmitterExt.v Lib/ZList.vio Model/Emitter.vio Model/EmitterTie.vio
+Model/EmitterExt.vos Model/EmitterExt.vok Model/EmitterExt.required_vos: Model/EmitterExt.v Lib/ZList.vos Model/Emitter.vos Model/EmitterTie.vos
+Props/FinalizeProps.vo Props/FinalizeProps.glob Props/FinalizeProps.v.beautified Props/FinalizeProps.required_vo: Props/FinalizeProps.v Lib/ZList.vo Model/Emitter.vo Model/EmitterTie.vo Model/EmitterExt.vo
+Props/FinalizeProps.vio: Props/FinalizeProps.v Lib/ZList.vio Model/Emitter.vio Model/EmitterTie.vio Model/EmitterExt.vio
+Props/FinalizeProps.vos Props/FinalizeProps.vok Props/FinalizeProps.required_vos: Props/FinalizeProps.v Lib/ZList.vos Model/Emitter.vos Model/EmitterTie.vos Model/EmitterExt.vos
+Props/ListingProps.vo Props/ListingProps.glob Props/ListingProps.v.beautified Props/ListingProps.required_vo: Props/ListingProps.v Lib/ZList.vo Model/Emitter.vo Model/EmitterTie.vo Model/EmitterExt.vo Props/FinalizeProps.vo
+Props/ListingProps.vio: Props/ListingProps.v Lib/ZList.vio Model/Emitter.vio Model/EmitterTie.vio Model/EmitterExt.vio Props/FinalizeProps.vio
+Props/ListingProps.vos Props/ListingProps.vok Props/ListingProps.required_vos: Props/ListingProps.v Lib/ZList.vos Model/Emitter.vos Model/EmitterTie.vos Model/EmitterExt.vos Props/FinalizeProps.vos
